@@ -155,6 +155,15 @@ def build(tier, seed, exclude):
         err = _sym_history(c0, c1, (m, t0, len(c0), i0), (m, t1, len(c1), i1), True)
         return T.fail(err) if err else True
     """, timeout=to)
+    # steered: a (future-dated) mtime that stays the same while ctime advances, and ctimes within one second
+    g.cond("h_sym_mtime_preserved", "c0: bytes, c1: bytes, m: int, t0: int, t1: int, i: int, rel: int",
+           ["len(c0) == len(c1) and 1 <= len(c0) <= 2 and c0 != c1", "m >= 0 and 0 <= t0 < t1 and i > 0 and 0 <= rel < 3"], """
+        c0, c1 = T.real(c0), T.real(c1)
+        pattern = (m > t1, m > t0, t1 - t0 < 1000000000, t0 // 1000000000 == t1 // 1000000000)
+        m, t0, t1, i = T.real((m, t0, t1, i))
+        err = _sym_history(c0, c1, (m, t0, len(c0), i), (m, t1, len(c1), i), True)
+        return T.fail(err) if err else True
+    """, timeout=to)
     g.cond("h_real_history", "op: int, same_size: bool", ["0 <= op < 5"], """
         err = _real_history(T.real(op), T.real(same_size))
         return T.fail(err) if err else True
